@@ -195,7 +195,10 @@ class Mir:
         self.fns, self.consts = {}, {}
         for m in re.finditer(r'^const ([^\n]*?): (\w+) = const (-?\d+)_\w+;$', txt, re.M):
             self.consts[m.group(1).strip()] = (int(m.group(3)), m.group(2))
+        self.const_bodies = {}
         for m in re.finditer(r'^(?:const|static) ([^\n{]*?): ([^\n=]*?) = \{\n(.*?)\n\}\n', txt, re.S | re.M):
+            if 'promoted[' not in m.group(1) and re.search(r'WithOverflow|Mul\(|Add\(|Sub\(|Shl\(', m.group(3)):
+                self.const_bodies[m.group(1).strip()] = (m.group(2).strip(), m.group(3))     # computed constant: evaluated by the engine on first use
             v = re.search(r'_0 = const (-?\d+)_(\w+);', m.group(3))
             if v is None and re.search(r'_0 = &_1;', m.group(3)):      # promoted reference to an integer constant
                 v = re.search(r'_1 = const (-?\d+)_(\w+);', m.group(3))
@@ -638,6 +641,15 @@ class Engine:
                 return const_int(v, ty)
             cv = self.mir.const(c)
             if cv: return const_int(cv[0], cv[1])
+            cb = getattr(self.mir, 'const_bodies', {})
+            if c in cb:
+                if not hasattr(self, '_const_cache'): self._const_cache = {}
+                if c not in self._const_cache:
+                    f = Fn(c, '', cb[c][1])
+                    outs = [r for _, r in self.run(f, [], Path(), _top=False) if not isinstance(r, Panic)]
+                    if len(outs) != 1: raise NotImplementedError('computed constant ' + c)
+                    self._const_cache[c] = outs[0]
+                return self._const_cache[c]
             # enum unit variant constant e.g. `const ErrorCode::Foo`
             m = re.match(r'^([\w:<>]+)::(\w+)$', c)
             if m and m.group(2)[0].isupper(): return E(m.group(2))
